@@ -82,6 +82,15 @@ fn drive(o: &Opts, one: fn(&[u8], usize, usize) -> Option<Vec<(String, String)>>
         if wit.is_some() { return Outcome { cases, witness: wit }; }
     }
     let mut rng = Rng(o.seed.wrapping_mul(0x9E3779B97F4A7C15) | 1);
+    // long unambiguous stretches (beyond 2^8 and 2^16 bases: any narrow run counter would wrap)
+    for (len, w, m) in [(300usize, 8usize, 5usize), (1000, 31, 7), (70_000, 12, 5), (66_000, 31, 31)] {
+        let s = random_seq(&mut rng, len, 0);
+        cases += 1;
+        if let Some(mut wt) = one(&s, w.min(wmax), m.min(w.min(wmax))) {
+            for kv in wt.iter_mut() { if kv.0 == "seq" { kv.1 = format!("<{} random unambiguous bases, seed {}>", len, o.seed); } }
+            return Outcome { cases, witness: Some(wt) };
+        }
+    }
     let n = if o.thorough { 300_000 } else { 40_000 };
     for _ in 0..n {
         let m = 1 + rng.below(31) as usize;
